@@ -7,10 +7,17 @@
 From Flatcc.Printer Require Import FlushModel PrintOps FlushProofs OpsProofs PrinterTheorems.
 Local Open Scope Z_scope.
 
-(* The reserve covers the longest run the printer stores between two flush checks. *)
-Theorem C11_reserve_covers_runs : 5 <= PRINT_NUM_WRITE_MAX /\ PRINT_NUM_WRITE_MAX + 6 <= PRINT_RESERVE.
+(* The reserve covers the longest run the printer stores between two flush checks, exactly: quote, colon, space,
+   one number with its terminator (PRINT_NUM_WRITE_MAX = 25, measured by T1), comma, newline and the terminator a
+   flush stores: reserve >= 30.  This and the three inequalities of [std] are the only requirements on the constants. *)
+Theorem C11_reserve_covers_runs : 6 <= PRINT_NUM_WRITE_MAX /\ PRINT_NUM_WRITE_MAX + 5 <= PRINT_RESERVE.
 Proof. exact reserve_covers_runs. Qed.
 Print Assumptions C11_reserve_covers_runs.
+
+Theorem C11_constants_consistent :
+  1 <= PRINT_RESERVE /\ PRINT_FLUSH_SIZE + PRINT_RESERVE <= PRINT_BUFFER_SIZE /\ PRINT_RESERVE <= PRINT_FLUSH_SIZE.
+Proof. exact std_CF. Qed.
+Print Assumptions C11_constants_consistent.
 
 (* Every primitive stream whose unchecked runs fit the reserve is printed to the end without a store outside
    the buffer: fixed buffers of every size from the reserve up, growing buffers of every initial size, the file
